@@ -7,9 +7,9 @@ def _gridlist(j, conv):
     vals = conv(j['values'])
     names = list(j['names']['$tuple'] if isinstance(j['names'], dict) else j['names'])
     vals = list(vals)
-    if len(set(names)) == len(names) == len(vals) and all(isinstance(n, str) for n in names):
-        return NamedGridList(list(zip(names, vals)))
-    return NamedGridList(vals)
+    if not (len(set(names)) == len(names) == len(vals) and all(isinstance(n, str) for n in names)):
+        names = ['%02d' % i for i in range(len(vals))]
+    return NamedGridList(list(zip(names, vals)))
 
 
 def _tile_grid(j, conv):
